@@ -53,15 +53,28 @@ def component_report(prob, h=1e-4):
     saved = {c.pathname: c._declared_partial_checks for c in comps}
     inc = [c.pathname for c in comps]
     try:
+        from . import omrepair
+
         _set(comps, method="fd", form="central", step=h, step_calc="rel_avg", minimum_step=1e-6)
+        f1 = omrepair.capture()
         d1 = _check(prob, inc)
         _set(comps, method="fd", form="central", step=h / 2, step_calc="rel_avg", minimum_step=5e-7)
+        f2 = omrepair.capture()
         d2 = _check(prob, inc)
         _set(comps, method="cs", step=1e-40)
+        fc = omrepair.capture()
         dc = _check(prob, inc)
     finally:
+        omrepair.capture(False)
         for c in comps:
             c._declared_partial_checks = saved[c.pathname]
+
+    def full(cap, d, comp, of, wrt):
+        """The complete numerical block (the framework's J_fd is masked by the declared sparsity pattern)."""
+        a = cap.get((comp, of, wrt))
+        j = np.asarray(d[comp][(of, wrt)]["J_fd"], dtype=float)
+        return a if a is not None and a.shape == j.shape else j
+
     byname = {c.pathname: c for c in comps}
     out = []
     for comp, blocks in d1.items():
@@ -85,9 +98,9 @@ def component_report(prob, h=1e-4):
             jan = np.asarray(v["J_fwd"], dtype=float)
             if jan.size == 0:
                 continue
-            j1 = np.asarray(v["J_fd"], dtype=float)
-            j2 = np.asarray(d2[comp][(of, wrt)]["J_fd"], dtype=float)
-            jc = np.asarray(dc[comp][(of, wrt)]["J_fd"], dtype=float)
+            j1 = full(f1, d1, comp, of, wrt)
+            j2 = full(f2, d2, comp, of, wrt)
+            jc = full(fc, dc, comp, of, wrt)
             jr = (4.0 * j2 - j1) / 3.0
             u = np.abs(j1 - j2)
             blk = max(float(np.max(np.abs(jr))), float(np.max(np.abs(jan))))
